@@ -45,6 +45,12 @@ pub fn task(tid: i32) -> Option<Task> {
     })
 }
 
+/// voluntary context switches of a thread (how often it went to sleep, i.e. woke up before).
+pub fn voluntary_switches(tid: i32) -> Option<u64> {
+    let st = std::fs::read_to_string(format!("/proc/self/task/{tid}/status")).ok()?;
+    st.lines().find_map(|l| l.strip_prefix("voluntary_ctxt_switches:")).and_then(|v| v.trim().parse().ok())
+}
+
 pub fn gettid() -> i32 {
     unsafe { libc::syscall(libc::SYS_gettid) as i32 }
 }
